@@ -281,6 +281,7 @@ struct World {
   unsigned zombie_gap = 1;   // 0 immediate, 1 schedulable
   int64_t clock_step_at_ms = -1;  // virtual time at which the wall clock (CLOCK_REALTIME) is stepped; -1: never
   int64_t clock_step_ms = 0;      // size of the step (signed); the monotonic clock and all timeouts are unaffected
+  unsigned errno_clobber = 0;  // 1: a caller's signal handler that does not preserve errno runs when a mask restore unblocks signals
   unsigned stall_num = 0;    // per mille of pre-emptions that turn into a stall: the thread stays off the processor for 1 ms .. 2.5 s of virtual time
   unsigned core_dumps = 0;   // 1: deaths by a core-type signal carry the core-dump flag (0x80) in the wait status
   unsigned stick_pct = 50;   // probability (percent) that the task that ran last keeps running at a switch point
@@ -303,6 +304,7 @@ struct Kernel {
   uint64_t n_descendants = 0;
   uint64_t n_stepped_reads = 0;
   uint64_t n_stalls = 0;
+  uint64_t n_errno_clobbered = 0;
   std::set<int> natural_emfile_ops;  // ops during which the descriptor table really was full
   std::map<int, Proc *> by_pid;  // current pid table
   std::vector<Pipe *> pipes;
